@@ -45,12 +45,12 @@ def _vols(op, key="volumes", flag="vnp"):
     vt = op.get("vtype")
     if vt == "int":
         return _np_if(_as_ints(v), op.get(flag, False))
-    if vt in ("float32", "int64", "npscalar"):
+    if vt in ("float32", "int64", "npscalar", "uint8", "uint16"):
         import numpy as np
 
         if vt == "npscalar":
             return np.float64(v) if not isinstance(v, list) else np.array(v, dtype=np.float64)
-        return np.array(v, dtype=np.float32 if vt == "float32" else np.int64)
+        return np.array(v, dtype={"float32": np.float32, "int64": np.int64, "uint8": np.uint8, "uint16": np.uint16}[vt])
     return _np_if(v, op.get(flag, False))
 
 
